@@ -224,4 +224,10 @@ int ThrowingConversion(const std::string& field_from_file) {
   return std::stoi(field_from_file);
 }
 
+// --- V1 control: a slice without terminator handed to a function that reads up to a NUL ---------------
+struct StringPiece { const char* str_; size_t len_; };
+bool UnterminatedSlice(StringPiece word) {
+  return strchr(word.str_, 'n') != NULL;
+}
+
 }  // namespace nvctl
